@@ -1689,7 +1689,9 @@ impl Vm {
 
             let mut new_msg = String::new();
             let chunk = frame.closure.function.chunk;
-            let instruction = chunk.code_offset(frame.ip) - 1;
+            // (An error noticed before a function has executed its first instruction belongs to that
+            // first instruction.)
+            let instruction = chunk.code_offset(frame.ip).saturating_sub(1);
             write!(
                 new_msg,
                 "[{}, line {}] in ",
